@@ -615,6 +615,16 @@ def _eval_fix_guard(g, binder, env):
             return env["FP"]
         if gg == ("in", XJ, FMD):
             return env["FM"]
+    if k == "truthy":
+        # truthiness of the fixed value itself (`fixed.get(i)`, `fixed[i]`): the index is listed and its value is not zero
+        gg = _gen(g, binder)
+        v = gg[1]
+        while isinstance(v, tuple) and v[:1] == ("int",):
+            v = v[1]
+        for D, key in ((FPD, "FP"), (FMD, "FM")):
+            if isinstance(v, tuple) and ((v[:1] == ("mcall",) and len(v) > 3 and v[1] == ("elem", D, "optional") and v[2] == "get" and v[3][:1] == (XJ,))
+                                         or (v[:1] == ("item",) and v[1] == ("elem", D, "optional") and v[2] == XJ)):
+                return env[key] and not env.get(key + "z", False)
     raise AnalysisError(f"unrecognised guard {show_pred(g)[:160]}")
 
 
@@ -667,15 +677,17 @@ def translate(rep, ex: Explorer):
         gd = p.state.heap.get(gam.oid) if isinstance(gam, Ref) else None
         if not isinstance(gd, HDict) or gd.entries or gd.sym:
             raise AnalysisError(f"{site}: gammas is not a per-index mapping")
-        for fp, fm in cases:
-            env = {"FP": fp, "FM": fm}
+        # (a fixed value may be 0: listed in the mapping all the same)
+        zcases = [(fp, fm, fpz, fmz) for fp, fm in cases for fpz in ((False, True) if fp else (False,)) for fmz in ((False, True) if fm else (False,))]
+        for fp, fm, fpz, fmz in zcases:
+            env = {"FP": fp, "FM": fm, "FPz": fpz, "FMz": fmz}
             hit = [e for e in gd.each if e[2] == IDX and _eval_fix_guard(e[3], e[1], env)]
             # (the pair as a record of two fields - a NamedTuple - reads as the tuple of its fields)
             for j_, e in enumerate(hit):
                 ro = p.state.heap.get(e[5].oid) if isinstance(e[5], Ref) else None
                 if isinstance(ro, HObj) and len(ro.attrs) == 2:
                     hit[j_] = e[:5] + (TupleV(tuple(ro.attrs.values())),)
-            case = f"{mode}; index {'fixed+' if fp else 'free+'}/{'fixed-' if fm else 'free-'}"
+            case = f"{mode}; index {'fixed+' if fp else 'free+'}{' (to 0)' if fpz else ''}/{'fixed-' if fm else 'free-'}{' (to 0)' if fmz else ''}"
             if len(hit) != 1 or not (isinstance(hit[0][5], TupleV) and len(hit[0][5].items) == 2) or not (isinstance(hit[0][4], ElemV) and hit[0][4].var == hit[0][1]):
                 rep.violation("REV.relation", site, f"parameters ({case})", "one (gamma+, gamma-) pair per index of the compilation, stored under that index", extracted=f"{len(hit)} entries", required="1", function=site)
                 continue
@@ -1243,6 +1255,7 @@ def entry(rep, ex: Explorer):
             def setup(I, with_model=with_model):
                 b = I.fresh_var("c")
                 revs = I.alloc(HList([("each", b, REVS, PTRUE, ElemV(b, "cond"))]))
+                I.index_is_key = True  # revision conditionals are identified by their `index`: it is the element's key here
                 rf = preocf._obj(I)
                 model = I.alloc(HObj(CM, {})) if with_model else Const(None)
                 refs["rf"], refs["revs"], refs["model"] = rf, revs, model
